@@ -24,9 +24,9 @@ Circ0 == << Block(<<0, 1>>, <<Prim(1, <<0, 1>>), Prim(2, <<1>>)>>), Prim(3, <<2>
             Block(<<1, 2>>, <<Prim(4, <<0>>), Prim(5, <<0, 1>>)>>) >>
 S0 == Start(3, Circ0, 1)
 
-Leaves == IF Rich THEN {Body(1, 0, 1, 1, 1), Body(2, 0, 1, 0, 0), Body(3, 1, 0, 1, 0), Body(4, 3, 1, 0, 1), Body(5, 5, 0, 0, 0)}
+Leaves == IF Rich THEN {Body(1, 0, 1, 1, 1), Body(2, 0, 1, 0, 0), Body(4, 3, 1, 0, 1)}
           ELSE {Body(1, 0, 1, 1, 1), Body(2, 0, 1, 0, 0)}
-ScriptChoices == IF Rich THEN {<<>>, <<TRUE>>, <<FALSE, TRUE>>, <<TRUE, TRUE>>, <<TRUE, FALSE, TRUE>>, <<TRUE, TRUE, TRUE, FALSE>>}
+ScriptChoices == IF Rich THEN {<<>>, <<TRUE>>, <<FALSE, TRUE>>, <<TRUE, TRUE, FALSE, TRUE>>}
                  ELSE {<<>>, <<TRUE>>, <<TRUE, TRUE, FALSE, TRUE>>}
 
 RECURSIVE Depth(_)
